@@ -45,7 +45,9 @@ type cluster struct {
 	lifeErr   []error
 	lifeAlive bool
 	seq       int // global event sequence (history timestamps)
-	execHeld  bool
+	// Clock: every advance of the simulated clock, stamped with the event sequence (its own tick of the sequence)
+	Clock    []clockStamp
+	execHeld bool
 	// AutoYields switches the inserted scheduling points on for this run
 	AutoYields bool
 	harnessGid uint64
@@ -55,6 +57,8 @@ type cluster struct {
 	advances int
 	// Ticks: clock advances offered as ordinary actions (the next one of the plan), interleaved with everything else
 	Ticks []time.Duration
+	// TickGate (optional): ticks are offered only while it holds
+	TickGate func() bool
 	t0    time.Time
 	// harnessTask names the tasks that belong to the harness (TLS client goroutines), not to the server.
 	harnessTask map[string]bool
@@ -344,8 +348,11 @@ func (cl *cluster) lifecycle(ops ...string) {
 }
 
 // startServer runs Start to completion (no interleaving with anything else).
-func (cl *cluster) startServer() error {
-	cl.lifecycle("Start")
+func (cl *cluster) startServer() error { return cl.lifecycleNow("Start") }
+
+// lifecycleNow runs one lifecycle call to completion before anything else happens.
+func (cl *cluster) lifecycleNow(op string) error {
+	cl.lifecycle(op)
 	for i := 0; i < 1000; i++ {
 		cl.S.Wait()
 		if cl.lifeDone >= len(cl.lifeOps) {
@@ -419,9 +426,10 @@ type client struct {
 	BadReply  error
 	SrvClosed bool // the server closed or reset the connection (seen by the client)
 
-	CallSeq []int // event seq when request i was handed to the transport
-	RetSeq  []int // event seq when reply i was complete
-	OnReply func(i int, v resp.Value)
+	CallSeq  []int       // event seq when request i was handed to the transport
+	CallTime []time.Time // simulated time at that moment
+	RetSeq   []int       // event seq when reply i was complete
+	OnReply  func(i int, v resp.Value)
 }
 
 func (cl *cluster) addClient(name string, addr string, items [][]byte) *client {
@@ -644,8 +652,21 @@ func (cl *cluster) advanceClock() bool {
 		return false
 	}
 	cl.advances++
-	cl.S.Advance(d)
+	cl.advance(d)
 	return true
+}
+
+type clockStamp struct {
+	Seq int
+	Now time.Time
+}
+
+// advance moves the simulated clock; the advance is an event of its own in the global sequence.
+func (cl *cluster) advance(d time.Duration) {
+	cl.seq++
+	cl.S.Advance(d)
+	cl.Clock = append(cl.Clock, clockStamp{cl.seq, time.Now()})
+	cl.seq++
 }
 
 func (c *client) deliver(n int) {
@@ -666,6 +687,7 @@ func (c *client) send() {
 	if to == c.ends[n] {
 		c.Cl.seq++
 		c.CallSeq = append(c.CallSeq, c.Cl.seq)
+		c.CallTime = append(c.CallTime, time.Now())
 	}
 	c.sent = to
 }
@@ -753,11 +775,11 @@ func (cl *cluster) run(budget int, inv func(), extra func() []sim.Action) bool {
 		if extra != nil {
 			acts = append(acts, extra()...)
 		}
-		if len(cl.Ticks) > 0 && len(acts) > 0 {
+		if len(cl.Ticks) > 0 && len(acts) > 0 && (cl.TickGate == nil || cl.TickGate()) {
 			d := cl.Ticks[0]
 			acts = append(acts, sim.Action{Key: "tick", Do: func() {
 				cl.Ticks = cl.Ticks[1:]
-				cl.S.Advance(d)
+				cl.advance(d)
 			}})
 		}
 		if len(acts) == 0 {
